@@ -28,7 +28,7 @@ import (
 //	automatic reset happens inside Increment. Counters saturate, so the state space is finite.
 //	A search node is (implementation state, model vector n) where the implementation state is
 //	the raw rows (+ doorkeeper bitset + incrs for tinyLFU) and n_k = accesses of key k recorded
-//	since the last reset / clear, capped at 16. The only oracle clause that reads n is the
+//	since the last reset / clear, capped at 15 (the oracle reads only min(n_k,15)). The only oracle clause that reads n is the
 //	lower bound min(n_k,15) <= estimate(k), which is monotone in n and the evolution of n is
 //	monotone too; therefore a node whose n is component-wise <= the n of an already recorded
 //	node with the SAME implementation state is subsumed (everything checked from it is checked
